@@ -381,7 +381,8 @@ class ScaledInteger(HasUnit, DataType):
     note: limits are for the scaled float value
           the scale is only used for calculating to/from transport serialisation
     """
-    scale = Property('scale factor', FloatRange(sys.float_info.min), extname='scale', mandatory=True)
+    scale = Property('scale factor', FloatRange(sys.float_info.min), extname='scale', mandatory=True,
+                     export='always')
     min = Property('low limit', FloatRange(), extname='min', mandatory=True)
     max = Property('high limit', FloatRange(), extname='max', mandatory=True)
     fmtstr = Property('format string', Stub('StringType'), extname='fmtstr', default='%g')
@@ -561,7 +562,7 @@ class BLOBType(DataType):
     minbytes = Property('minimum number of bytes', IntRange(0), extname='minbytes',
                         default=0)
     maxbytes = Property('maximum number of bytes', IntRange(0), extname='maxbytes',
-                        mandatory=True)
+                        mandatory=True, export='always')
 
     def __init__(self, minbytes=0, maxbytes=None):
         super().__init__()
